@@ -256,7 +256,7 @@ class Specialiser:
             elif isinstance(n, jn.Assign):
                 if isinstance(n.target, jn.Name):
                     env[n.target.name] = "<assigned:" + jtext(n.node) + ">"
-                    if isinstance(n.node, (jn.Concat, jn.CondExpr, jn.Const, jn.Add)):
+                    if isinstance(n.node, (jn.Concat, jn.CondExpr, jn.Const, jn.Add, jn.Getattr, jn.Name, jn.Filter, jn.Call)):
                         # a text computed from the configuration ({% set helper = ("_stream" if .. else "_unary") ~ .. %})
                         holes = len(self.holes)
                         try:
